@@ -678,6 +678,13 @@ func (e *Env) call(x *SExpr) Term {
 			e.fail("regex: %v", err)
 		}
 		return boolT(re)
+	case "stored":
+		// stored("Type.field"): some direct assignment to that field was executed by this function (or an inlined callee)
+		need(1)
+		if x.Args[0].Op != "str" {
+			e.fail("stored needs a \"Type.field\" string")
+		}
+		return boolT(sOr(fe.storeReach[x.Args[0].Str]...))
 	case "deref":
 		need(1)
 		a := e.eval(x.Args[0])
